@@ -64,6 +64,33 @@ pub fn gen_rw_run(check: &str, seed: u64, tier: Tier) -> Run {
         };
         run.ops.push(Op::new("add").t(t));
     }
+    if w.chance(1, 6) {
+        // two instances of the eq-conditioned rule in one e-graph: one where the condition holds
+        // (a - a) and one where the two bindings are the same class invoked with swapped
+        // arguments (a(x,y) - a(y,x)), which must NOT fire
+        let ri = pool.iter().position(|r| r.cond_eq.is_some()).unwrap();
+        seeded_rules.push(ri as i64);
+        let (x, y) = (binder, binder + 1);
+        binder += 2;
+        let mut t = random_la(&mut w, &[x, y], 2, &mut binder);
+        if t.free().len() < 2 {
+            t = Tm::node("add", vec![], vec![(vec![], Tm::leaf("var", vec![x])), (vec![], Tm::node("mul", vec![], vec![(vec![], Tm::leaf("var", vec![y])), (vec![], Tm::leaf("var", vec![y]))]))]);
+        }
+        let sw: BTreeMap<S, S> = [(x, y), (y, x)].into_iter().collect();
+        let tsw = t.rename_keep_binders(&sw);
+        let mk = |a: &Tm, b: &Tm| {
+            Tm::node("sum", vec![], vec![(vec![x], Tm::node("sum", vec![], vec![(vec![y], Tm::node("add", vec![], vec![(vec![], a.clone()), (vec![], Tm::node("neg", vec![], vec![(vec![], b.clone())]))]))]))])
+        };
+        let same = mk(&t, &t);
+        let swapped = mk(&t, &tsw);
+        if w.chance(1, 2) {
+            run.ops.push(Op::new("add").t(same));
+            run.ops.push(Op::new("add").t(swapped));
+        } else {
+            run.ops.push(Op::new("add").t(swapped));
+            run.ops.push(Op::new("add").t(same));
+        }
+    }
     // a few equations between small terms that are valid in the model? No: unions of arbitrary
     // terms are not model-valid. Only rule applications (and for C14 also raw unions).
     let iters = w.range(1, if tier == Tier::Quick { 4 } else { 6 });
